@@ -113,6 +113,30 @@ theorem tw_run_idle (hs : H.Sound) {S S' : List (Key × VH)} (hS : KeysOK S) (hS
       have := tw_run_invB H D hs hS hS' hrep cfg todo (done ++ [s]) _ hso' hDp' hinv
       simpa [TW.run] using this
 
+/-- the first replaced terminal, from the idle walker -/
+theorem idle_step_replace (hs : H.Sound) {S S' : List (Key × VH)} (hS : KeysOK S) (hS' : KeysOK S')
+    {done todo : List (Step VH)} {s : Step VH} (hso : ScriptOK S S' (done ++ s :: todo))
+    (hDp : PathsIn D (done ++ s :: todo)) {store0 : Store Node} (hrep : Rep0 H D S store0) (cfg : TWCfg Node)
+    (a : TW Node) (hidle : Idle store0 cfg a) (hdone : ∀ s' ∈ done, s'.2.isSome = false)
+    (ops : List (Key × VH)) (hop : s.2 = some ops) :
+    a.step H cfg s = ({ a with pos := s.1 } : TW Node).replaceTerminal H cfg (sub S' s.1) ∧
+    InvB H D S S' store0 cfg (done ++ [s]) todo (a.step H cfg s) := by
+  have hops := hso.repl s (by simp) ops hop
+  have hstep : a.step H cfg s = ({ a with pos := s.1 } : TW Node).replaceTerminal H cfg (sub S' s.1) := by
+    unfold TW.step; rw [hop]; simp only
+    unfold TW.advanceAndReplace
+    rw [tw_compactUp_idle H cfg a _ hidle.pos, hops]
+  have hpre := preRep_init H D hS hso hDp hrep cfg a hidle.store hidle.log hidle.cpr hdone
+  have hinv := invB_replace H D hs hS hS' hso cfg a hpre
+  rw [← hstep] at hinv
+  exact ⟨hstep, hinv⟩
+
+theorem idle_step_advance (cfg : TWCfg Node) {store0 : Store Node} (a : TW Node) (hidle : Idle store0 cfg a)
+    (s : Step VH) (hop : s.2 = none) : a.step H cfg s = a := by
+  unfold TW.step; rw [hop]; simp only
+  unfold TW.advance
+  exact tw_compactUp_idle H cfg a _ hidle.pos
+
 /-! ## `conclude` -/
 
 theorem tw_conclude_spec (hs : H.Sound) {S S' : List (Key × VH)} (hS' : KeysOK S')
